@@ -223,6 +223,11 @@ func eq(a, b string) string {
 	if a == b {
 		return "true"
 	}
+	if _, _, oka := litVal(a); oka {
+		if _, _, okb := litVal(b); okb {
+			return "false"
+		}
+	}
 	return app("=", a, b)
 }
 
@@ -300,4 +305,96 @@ func bvMul(a, b string) string {
 		return a
 	}
 	return app("bvmul", a, b)
+}
+
+func isPow2Lit(t string) bool {
+	v, _, ok := litVal(t)
+	if !ok || v.Sign() <= 0 {
+		return false
+	}
+	return new(big.Int).And(v, new(big.Int).Sub(v, big.NewInt(1))).Sign() == 0
+}
+
+// foldBV evaluates a bit-vector operator on two literals; ok=false when the
+// operands are not both literals (or the operator is not handled).
+func foldBV(op, a, b string) (string, bool) {
+	va, w, oka := litVal(a)
+	vb, wb, okb := litVal(b)
+	if !oka || !okb || w != wb {
+		return "", false
+	}
+	mod := new(big.Int).Lsh(big.NewInt(1), uint(w))
+	sgn := func(v *big.Int) *big.Int {
+		if v.Bit(w-1) == 1 {
+			return new(big.Int).Sub(v, mod)
+		}
+		return v
+	}
+	r := new(big.Int)
+	switch op {
+	case "bvadd":
+		r.Add(va, vb)
+	case "bvsub":
+		r.Sub(va, vb)
+	case "bvmul":
+		r.Mul(va, vb)
+	case "bvand":
+		r.And(va, vb)
+	case "bvor":
+		r.Or(va, vb)
+	case "bvxor":
+		r.Xor(va, vb)
+	case "bvshl":
+		if vb.Cmp(big.NewInt(int64(w))) >= 0 {
+			r.SetInt64(0)
+		} else {
+			r.Lsh(va, uint(vb.Int64()))
+		}
+	case "bvlshr":
+		if vb.Cmp(big.NewInt(int64(w))) >= 0 {
+			r.SetInt64(0)
+		} else {
+			r.Rsh(va, uint(vb.Int64()))
+		}
+	case "bvudiv", "bvurem":
+		if vb.Sign() == 0 {
+			return "", false
+		}
+		if op == "bvudiv" {
+			r.Quo(va, vb)
+		} else {
+			r.Rem(va, vb)
+		}
+	case "bvsdiv", "bvsrem":
+		if vb.Sign() == 0 {
+			return "", false
+		}
+		if op == "bvsdiv" {
+			r.Quo(sgn(va), sgn(vb))
+		} else {
+			r.Rem(sgn(va), sgn(vb))
+		}
+	case "bvult", "bvule", "bvugt", "bvuge", "bvslt", "bvsle", "bvsgt", "bvsge":
+		x, y := va, vb
+		if op[2] == 's' {
+			x, y = sgn(va), sgn(vb)
+		}
+		c := x.Cmp(y)
+		res := map[string]bool{"lt": c < 0, "le": c <= 0, "gt": c > 0, "ge": c >= 0}[op[3:]]
+		if res {
+			return "true", true
+		}
+		return "false", true
+	default:
+		return "", false
+	}
+	return bvLitBig(w, r), true
+}
+
+// appf is app with literal folding for binary bit-vector operators.
+func appf(op string, a, b string) string {
+	if r, ok := foldBV(op, a, b); ok {
+		return r
+	}
+	return app(op, a, b)
 }
